@@ -1,0 +1,46 @@
+//! Verification hooks (feature `verif-hooks`, off by default).
+//!
+//! A clock seam for deterministic simulation: every place in this crate that
+//! reads `chrono::Local::now()` shadows `Local` with the unit struct below.
+//! Without an installed override it returns the real local time, so enabling
+//! the feature alone does not change behaviour.
+
+use chrono::{DateTime, FixedOffset};
+use std::cell::RefCell;
+
+type ClockFn = Box<dyn FnMut() -> DateTime<FixedOffset>>;
+
+thread_local! {
+    static CLOCK: RefCell<Option<ClockFn>> = RefCell::new(None);
+}
+
+/// Installs (or, with `None`, removes) the clock override of the calling thread.
+/// Returns the previously installed override.
+pub fn set_clock(clock: Option<ClockFn>) -> Option<ClockFn> {
+    CLOCK.with(|c| std::mem::replace(&mut *c.borrow_mut(), clock))
+}
+
+/// Stand-in for `chrono::Local` at the crate's clock read sites.
+pub struct Local;
+
+impl Local {
+    #[inline]
+    pub fn now() -> DateTime<FixedOffset> {
+        // The override is taken out while it runs so that a re-entrant read
+        // from inside the closure falls through to the real clock.
+        let taken = CLOCK.with(|c| c.borrow_mut().take());
+        match taken {
+            Some(mut f) => {
+                let now = f();
+                CLOCK.with(|c| {
+                    let mut slot = c.borrow_mut();
+                    if slot.is_none() {
+                        *slot = Some(f);
+                    }
+                });
+                now
+            }
+            None => chrono::Local::now().fixed_offset(),
+        }
+    }
+}
